@@ -247,8 +247,10 @@ Section WithOracles.
         assert (forall x, r = XOk x -> Chain h x) as CH.
         { intros x E; subst. eapply expand_uncached_chain; eauto. }
         split; [exact CH|]. split; [eapply expand_uncached_keeps_cache_ok; eauto|].
+        (* only a success is stored (fix 6e5c862: a failed expansion is forgotten) *)
+        destruct r as [xr|er]; [|exact MI].
         intros u r2 x A2 E2. simpl in A2. destruct (key_eqb u (memo_key h)) eqn:Eu.
-        * apply key_eqb_eq in Eu; subst u. inversion A2; subst. exists h. split; [reflexivity | apply CH; reflexivity].
+        * apply key_eqb_eq in Eu; subst u. inversion A2; subst. exists h. split; [reflexivity | apply CH; assumption].
         * eapply MI; eauto.
     - destruct (expand_uncached sha1 sha256 b64 None h served) as [r1 k1] eqn:EU.
       intro H. inversion H; subst. split; [|split; [eapply expand_uncached_keeps_cache_ok; eauto | exact MI]].
